@@ -60,16 +60,20 @@ def boundaries(role, exch):
     return out
 
 
-def _mk(role, exch, k, sched=None, net=None, t=None, dribble=False):
+def _mk(role, exch, k, sched=None, net=None, t=None, dribble=False, size=300, cap=None):
     t = t or 0.05
     ae = {"acse": t, "dimse": 1.4 * t, "network": 2 * t, "connection": t}
     user = []
     if role == "requestor":
-        user = [{"op": {"echo": "echo", "store": "store", "find": "find"}[exch], "size": 300, "consume": 9}, {"op": "release"}]
+        user = [{"op": {"echo": "echo", "store": "store", "find": "find"}[exch], "size": size, "consume": 9}, {"op": "release"}]
     sc = {"role": role, "exch": exch, "budget": k, "ae": ae, "peer": peer_script(role, exch), "user": user,
-          "sched": sched or {"switch_pct": 30}, "net": net or {"seg": "whole"}}
+          "sched": sched or {"switch_pct": 30}, "net": dict(net or {"seg": "whole"})}
     if dribble:
         sc["net"] = {"seg": "dribble", "dribble_max": 3, "dribble_gap": t / 40}
+    if cap is not None:
+        # flow control: the stalled peer has also stopped *reading*; once `cap` bytes are outstanding the local
+        # send() blocks (back-pressure) instead of succeeding into a bottomless buffer
+        sc["net"]["pipe_capacity"] = cap
     return sc
 
 
@@ -86,6 +90,12 @@ def directed(tier):
                 ks = [k for k in ks if 0 <= k <= total]
             for k in ks:
                 out.append(_mk(role, exch, k))
+    # peer accepts the association and then neither reads nor writes: a C-STORE larger than the connection's
+    # buffering blocks in send()
+    ac_len = boundaries("requestor", "store")[0]
+    for cap in (512, 2048, 8192):
+        for size in (3000, 20000, 70000):
+            out.append(_mk("requestor", "store", ac_len, size=size, cap=cap))
     return out
 
 
@@ -100,7 +110,11 @@ def gen(rng, idx, tier):
     exch = rng.choice(EXCH)
     total = stream_len(role, exch)
     k = rng.randrange(0, total + 1)
-    return _mk(role, exch, k, sched=C.gen_sched(rng), net=C.gen_net(rng), t=rng.choice([0.03, 0.05, 0.1]), dribble=rng.randrange(4) == 0)
+    size, cap = 300, None
+    if rng.randrange(4) == 0:
+        size, cap = rng.choice([3000, 20000, 70000]), rng.choice([256, 1024, 4096, 16384])
+    return _mk(role, exch, k, sched=C.gen_sched(rng), net=C.gen_net(rng), t=rng.choice([0.03, 0.05, 0.1]), dribble=rng.randrange(4) == 0,
+               size=size, cap=cap)
 
 
 def shrink(sc):
@@ -173,7 +187,9 @@ def nontrivial(sc, r):
 
 
 def probes(sc, r):
-    return {"phase_%s_%s" % (sc["role"], _phase(sc)): True, "stalled": any(h["kind"] == "peer_stall" for h in r.hist)}
+    return {"phase_%s_%s" % (sc["role"], _phase(sc)): True, "stalled": any(h["kind"] == "peer_stall" for h in r.hist),
+            "send_blocked_by_flow_control": r.counters.get("net.send_blocked", 0) > 0,
+            "send_timed_out": r.counters.get("net.send_timeout", 0) > 0}
 
 
 def sample(sc, r):
